@@ -306,6 +306,13 @@ def run(tier: str, seed: int) -> int:
     tlc.cleanup(r2)
     import shutil
     shutil.rmtree(work, ignore_errors=True)
+    # the composed machine (spec/Session.tla): multi-step API sessions generated by TLC -simulate, replayed call by call; this check
+    # reports the mismatches of the operations it owns (filter)
+    if tier != "quick":
+        from .. import session
+        import jax.numpy as _jnp
+        import exponax as _ex
+        session.run_for(run_, tier, seed, _ex, _jnp, ['filter'], PID)
     return run_.finish()
 
 
